@@ -13,6 +13,8 @@ Init == /\ regs = <<>> /\ running = {} /\ owed = {} /\ lastBegin = <<>> /\ stopp
         /\ l = 1 /\ TLCSet(1, 0)
 Un(vs) == UNCHANGED vs
 K == DOMAIN regs
+\* real-clock runs (vh rt) give the time-bounded rule a slack; fake-clock bubbles are exact
+Slack == IF "slack" \in DOMAIN Ev THEN Ev.slack ELSE 0
 Next ==
   /\ l <= Len(Trace) /\ l' = l + 1
   /\ CASE Ev.ev = "reset" -> regs' = <<>> /\ running' = {} /\ owed' = {} /\ lastBegin' = <<>> /\ stopped' = FALSE /\ swPending' = FALSE /\ swReturned' = FALSE
@@ -41,7 +43,7 @@ Next ==
             /\ (~stopped => \A k \in owed : k \in running)          \* no trigger is lost
             \* periodic functions keep being invoked: the next run is due at most iv + jit after the last one began
             /\ (~stopped => \A k \in K : (regs[k].live /\ regs[k].kind \in {"per", "ptrig"} /\ k \notin running)
-                                          => Ev.t - lastBegin[k] <= regs[k].iv + regs[k].jit)
+                                          => Ev.t - lastBegin[k] <= regs[k].iv + regs[k].jit + Slack)
             /\ (swPending => running # {})                          \* StopAndWait only waits for running functions
             /\ (swReturned => running = {})
 Spec == Init /\ [][Next]_vars
